@@ -6,10 +6,13 @@
    share_model : the same on values in which one container instance occurs at several positions
                  (aliasing), with the recursion guard of ToString2  vs  format_value_g; every such case
                  must also satisfy `lok []` (no cycle), the hypothesis of C20_sharing_invisible
+   sprintf_model : types.PuppetSprintf(format, args...) (= PuppetFprintf) with several directives, literal text, %%,
+                 positional and keyed forms, and defective format texts  vs  sprintf (Model/FormatSprintf.v):
+                 the text, or the class of the error (issue code / the reader's string panic)
    keys_model  : px.IsAssignable between the key types of format maps, and of key types against the
                  values' inferred types  vs  key_sub / key_accepts *)
 From Coq Require Import ZArith NArith Bool List.
-From PcoreV Require Import Model.Base Model.Format Model.FormatShare.
+From PcoreV Require Import Model.Base Model.Format Model.FormatShare Model.FormatSprintf.
 Import ListNotations.
 Open Scope Z_scope.
 
@@ -74,6 +77,27 @@ Definition radix_pad_check (c : pcase) : bool :=
   && option_eqb Z.eqb (int_ctor CPositional (trim_space (p_text c)) (p_radix c) (p_abs c)) (p_pos c)
   && option_eqb Z.eqb (int_ctor CNamed (trim_space (p_text c)) (p_radix c) (p_abs c)) (p_named c).
 Definition radix_pad_mismatches (cs : list pcase) : list N := failing radix_pad_check cs.
+
+(* the sprintf style entry points: format text, arguments, one oracle table per directive applied (in order) *)
+Record spcase := mkSpCase { sp_fmt : str; sp_args : list value; sp_os : list oracle; sp_obs : sp_res }.
+
+Definition sp_err_eqb (a b : sp_err) : bool :=
+  match a, b with
+  | SpFormat x, SpFormat y => err_eqb x y
+  | SpIllegalArgument, SpIllegalArgument | SpIllegalArguments, SpIllegalArguments | SpBadRune, SpBadRune => true
+  (* SpFuel and SpOracle are never equal to an observation *)
+  | _, _ => false
+  end.
+
+Definition sp_res_eqb (a b : sp_res) : bool :=
+  match a, b with
+  | SpText x, SpText y => str_eqb x y
+  | SpErr x, SpErr y => sp_err_eqb x y
+  | _, _ => false
+  end.
+
+Definition sprintf_check (c : spcase) : bool := sp_res_eqb (sprintf (sp_os c) (sp_fmt c) (sp_args c)) (sp_obs c).
+Definition sprintf_mismatches (cs : list spcase) : list N := failing sprintf_check cs.
 
 (* key tables *)
 Inductive kcase :=
